@@ -2,10 +2,10 @@
 # usage: tools/try_patch.sh <patch file> <Cxx> [extra check args]
 # applies a patch in a scratch worktree (outside /repo and /verif) and runs the check against it via PRAATIO_ROOT; prints the exit code
 p=$(readlink -f $1); pid=$2; shift; shift
-wt=/tmp/wt/tryp_$(basename $p .diff)_$pid
+tag=$(basename $(dirname $p))_$(basename $p .diff); wt=/tmp/wt/tryp_${tag}_$pid
 [ -d $wt ] || git -C /repo worktree add -q --detach $wt HEAD
 cd $wt && git checkout -q -- . && git apply $p || { echo "apply failed"; exit 2; }
-cd /verif && PRAATIO_ROOT=$wt ./check $pid --no-canary "$@" 2>&1 | grep -E "VIOLATION|outcome=|INCONC|HARNESS|UNKNOWN|KNOWN|NOT-ENCODED|tier=" | cut -c1-260 | sed "s/^/[$(basename $p .diff) $pid] /"
+cd /verif && PRAATIO_ROOT=$wt ./check $pid --no-canary "$@" 2>&1 | grep -E "VIOLATION|outcome=|INCONC|HARNESS|UNKNOWN|KNOWN|NOT-ENCODED|tier=" | cut -c1-260 | sed "s/^/[$tag $pid] /"
 rc=${PIPESTATUS[0]}
-echo "[$(basename $p .diff) $pid] exit=$rc"
+echo "[$tag $pid] exit=$rc"
 git -C /repo worktree remove --force $wt
